@@ -156,6 +156,10 @@ void ReadRecordHeader(
             if (fread(Gran, 1, 1, f) != 1) {
                 ChkIO(Name);
             }
+            if ((*Segment >= SegCount) || (*Gran == 0)) {
+                FormatError(
+                        Name, catgetmessage(&MsgCat, Num_FormatInvRecordHeaderMsg));
+            }
         } else if (*Header <= 0x7f) {
             *CPU     = *Header;
             *Header  = FileHeaderDataRec;
